@@ -26,6 +26,8 @@ impl LazyBigint {
     #[verifier::external_body]
     pub fn is_positive(&self) -> (r: bool) ensures r == (self.val() > 0) { unimplemented!() }
     #[verifier::external_body]
+    pub fn from(x: isize) -> (r: LazyBigint) ensures r.val() == x { unimplemented!() }
+    #[verifier::external_body]
     pub fn zero() -> (r: LazyBigint) ensures r.val() == 0 { unimplemented!() }
     #[verifier::external_body]
     pub fn is_zero(&self) -> (r: bool) ensures r == (self.val() == 0) { unimplemented!() }
@@ -100,6 +102,68 @@ impl Items {
     { unimplemented!() }
 }
 
+/// XSequence (builtin/sequence.rs) as seen by the derived functions: a finite list of element results
+pub struct XSeq { pub e: Ghost<Seq<RuntimeResult<EvaluatedValue>>> }
+/// the iterator `XSequence::iter` hands out (elements in index order)
+pub struct ElemIter { pub r: Ghost<Seq<RuntimeResult<EvaluatedValue>>> }
+impl VxIt for ElemIter {
+    type Item = RuntimeResult<EvaluatedValue>;
+    open spec fn rest(&self) -> Seq<RuntimeResult<EvaluatedValue>> { self.r@ }
+    #[verifier::external_body]
+    fn next(&mut self) -> (r: Option<RuntimeResult<EvaluatedValue>>) { unimplemented!() }
+}
+impl ElemIter {
+    pub fn zip<B: VxIt>(self, b: B) -> (r: Zip<ElemIter, B>) ensures r.a == self, r.b == b { Zip { a: self, b } }
+}
+impl XSeq {
+    pub open spec fn elems(&self) -> Seq<RuntimeResult<EvaluatedValue>> { self.e@ }
+    /// XSequence::len: always `Some(..)` (src/builtin/sequence.rs:99)
+    #[verifier::external_body]
+    pub fn len(&self) -> (r: Option<usize>) ensures r == Some(self.elems().len() as usize), self.elems().len() <= usize::MAX { unimplemented!() }
+    #[verifier::external_body]
+    pub fn iter(&self, ns: &Ns, rt: Rt) -> (r: ElemIter) ensures r.rest() == self.elems() { unimplemented!() }
+}
+/// the search budget (RuntimeLimits::search_iter): `Ok(())` per permitted step, then one MaximumSearch
+/// violation; `n` is the length of the stream it is zipped with
+pub struct Budget { pub r: Ghost<Seq<RuntimeResult<()>>> }
+impl VxIt for Budget {
+    type Item = RuntimeResult<()>;
+    open spec fn rest(&self) -> Seq<RuntimeResult<()>> { self.r@ }
+    #[verifier::external_body]
+    fn next(&mut self) -> (r: Option<RuntimeResult<()>>) { unimplemented!() }
+}
+pub open spec fn budget_shape(b: Seq<RuntimeResult<()>>, n: int) -> bool {
+    ||| (b.len() >= n && forall|i: int| 0 <= i < n ==> (#[trigger] b[i]) is Ok)
+    ||| (1 <= b.len() <= n && b[b.len() - 1] is Err && forall|i: int| 0 <= i < b.len() - 1 ==> (#[trigger] b[i]) is Ok)
+}
+/// builtin/core.rs `search`: zip with the search budget
+#[verifier::external_body]
+pub fn search<I: VxIt>(other: I, rt: Rt) -> (r: Zip<I, Budget>)
+    ensures r.a == other, budget_shape(r.b.rest(), other.rest().len() as int),
+{ unimplemented!() }
+pub assume_specification [<isize as core::convert::From<bool>>::from] (b: bool) -> (r: isize)
+    ensures r == (if b { 1isize } else { 0isize });
+
+/// XStack (builtin/stack.rs): `length` is the number of nodes `iter()` visits (representation invariant,
+/// assumed here)
+pub struct XStack { pub length: usize, pub e: Ghost<Seq<Val>> }
+pub struct StackIter { pub r: Ghost<Seq<Val>> }
+impl VxIt for StackIter {
+    type Item = Val;
+    open spec fn rest(&self) -> Seq<Val> { self.r@ }
+    #[verifier::external_body]
+    fn next(&mut self) -> (r: Option<Val>) { unimplemented!() }
+}
+impl StackIter {
+    pub fn zip<B: VxIt>(self, b: B) -> (r: Zip<StackIter, B>) ensures r.a == self, r.b == b { Zip { a: self, b } }
+}
+impl XStack {
+    pub open spec fn elems(&self) -> Seq<Val> { self.e@ }
+    pub open spec fn wf(&self) -> bool { self.length == self.e@.len() }
+    #[verifier::external_body]
+    pub fn iter(&self) -> (r: StackIter) ensures r.rest() == self.elems() { unimplemented!() }
+}
+
 pub struct Rt;
 impl Rt { #[verifier::external_body] pub fn clone(&self) -> (r: Rt) { unimplemented!() } }
 pub struct ManagedXValue;
@@ -157,6 +221,23 @@ pub open spec fn tuple_args(args: &[XExpr], funcs: Items) -> bool {
     args@.len() == 2
     && (ev(args[0]) matches Ok(v) ==> v.value is StructInstance && v.value->StructInstance_0.v@.len() == funcs.v@.len())
     && (ev(args[1]) matches Ok(v) ==> v.value is StructInstance && v.value->StructInstance_0.v@.len() == funcs.v@.len())
+}
+/// the answer of the element function on the k-th elements of two sequences
+pub open spec fn sans(f: Val, x: XSeq, y: XSeq, k: int) -> EvaluatedValue {
+    apply(f.value->Function_0, seq![x.elems()[k]->Ok_0, y.elems()[k]->Ok_0])
+}
+pub open spec fn func_answers_bool(f: Val) -> bool {
+    f.value is Function && forall|s: Seq<EvaluatedValue>| (#[trigger] apply(f.value->Function_0, s)) matches Ok(c) ==> c.value is Bool
+}
+pub open spec fn func_answers_int(f: Val) -> bool {
+    f.value is Function && forall|s: Seq<EvaluatedValue>| (#[trigger] apply(f.value->Function_0, s)) matches Ok(c) ==> c.value is Int
+}
+pub open spec fn kans(f: Val, x: Seq<Val>, y: Seq<Val>, k: int) -> EvaluatedValue {
+    apply(f.value->Function_0, seq![Ok(x[k]), Ok(y[k])])
+}
+pub open spec fn imin(a: int, b: int) -> int { if a <= b { a } else { b } }
+pub open spec fn result_int(t: TailedEvalResult, x: int) -> bool {
+    t matches TailedEvalResult::Value(Ok(v)) && v.value is Int && v.value->Int_0.val() == x
 }
 pub open spec fn result_bool(t: TailedEvalResult, b: bool) -> bool {
     t matches TailedEvalResult::Value(Ok(v)) && v.value == XValue::Bool(b)
